@@ -12,7 +12,9 @@ git checkout -q -- .
 ( cd $S/demo && bash run.sh >/tmp/demo-$P-$K-without.log 2>&1 ); DWO=$?
 # our check against the change, in /repo
 unset CARGO_TARGET_DIR
-cd /repo && git apply $S/patch.diff; AP=$?
+# a seed made before a later fix commit may need its patch carried over to /repo's HEAD (kept next to the original)
+RP=$S/patch.diff; if [ -f $S/patch.rebased.diff ]; then RP=$S/patch.rebased.diff; cp $S/patch.diff $OUT/patch.orig.diff; cp $RP $OUT/patch.diff; fi
+cd /repo && git apply $RP; AP=$?
 cd /verif && ./check $P --tier quick > /tmp/check-$P-$K.log 2>&1; CR=$?
 cd /repo && git checkout -q -- .
 VL=$(grep -c "^VIOLATION" /tmp/check-$P-$K.log)
